@@ -188,7 +188,7 @@ mod harness {
         // the client's request (C15 post-conditions)
         let nd: usize = kani::any(); kani::assume(nd <= ND);
         let mut req = packed::GetLastStateProof { start_number: start as u64, boundary: U256(start_td), diffs: [U256(0); 4], nd: 0 };
-        let mut resp = [VerifiableHeader::default(); T]; let mut n = 0usize;
+        let mut resp = [VerifiableHeader::default(); T]; let mut n = 0usize; let mut ns = 0usize;
         let mk = |k: usize| { let mut v = VerifiableHeader::default(); v.header.number = k as u64; v.header.compact_target = d[k] as u32; v.header.diff = d[k]; v.root.td = U256(tdv[k] - d[k]); v };
         if gap <= last_n {
             let mut k = start; while k < last_no { resp[n] = mk(k); n += 1; k += 1; }
@@ -203,23 +203,23 @@ mod harness {
             // samples: first block in [start, bb) reaching each requested difficulty, de-duplicated, ascending
             let mut k = start;
             while k < bb { let mut hit = false; let mut j = 0; while j < ND { if j < nd { let x = req.diffs[j].0; if tdv[k] >= x && (k == start || tdv[k - 1] < x) && !(k == start && x <= tdv[k] - d[k]) { hit = true; } } j += 1; }
-                if hit { resp[n] = mk(k); n += 1; } k += 1; }
+                if hit { resp[n] = mk(k); n += 1; ns += 1; } k += 1; }
             let mut k = bb; while k < last_no { resp[n] = mk(k); n += 1; k += 1; }
         }
         let mut last = VerifiableHeader::default(); last.header.number = last_no as u64;
-        // the case recorded as known finding C05/KF-1: a SAMPLING request whose honest answer consists of exactly last_n headers (no block
-        // below the last-N section reaches a requested difficulty), e.g. when the peer is exactly last_n + 1 blocks ahead
-        let known_case = gap > last_n && n == last_n;
+        // the case recorded as known finding C05/KF-1: a SAMPLING request whose honest answer carries NO sampled header (every requested
+        // difficulty is reached inside the last-N section), e.g. always when the peer is exactly last_n + 1 blocks ahead
+        let known_case = gap > last_n && ns == 0;
         kani::assume(known_case == KNOWN_CASE);
         let r = check_if_response_is_matched(last_n, &req, &resp[..n], &last);
-        if KNOWN_CASE { assert!(r.is_ok(), "SPEC completeness (sampling request answered by exactly last_n headers): the honest response was rejected"); }
+        if KNOWN_CASE { assert!(r.is_ok(), "SPEC completeness (sampling request answered without any sampled header): the honest response was rejected"); }
         else { assert!(r.is_ok(), "SPEC completeness: the response an honest RFC-44 prover builds for the client's own request was rejected"); }
         if !KNOWN_CASE { kani::cover!(gap > last_n && n >= 3, "a sampled response"); kani::cover!(gap <= last_n, "an all-blocks response"); }
-        else { kani::cover!(true, "a sampling request answered by exactly last_n headers"); kani::cover!(gap == last_n + 1, "the peer is exactly last_n + 1 blocks ahead"); }
+        else { kani::cover!(true, "a sampling request answered without any sampled header"); kani::cover!(gap == last_n + 1, "the peer is exactly last_n + 1 blocks ahead"); }
     }
     #[kani::proof] #[kani::unwind(7)] fn honest_q() { honest::<5, 2, false>(); }
     #[kani::proof] #[kani::unwind(9)] fn honest_t() { honest::<7, 3, false>(); }
-    #[kani::proof] #[kani::unwind(7)] fn honest_exactly_last_n() { honest::<5, 2, true>(); }
+    #[kani::proof] #[kani::unwind(7)] fn honest_without_samples() { honest::<5, 2, true>(); }
 
     #[kani::proof] #[kani::unwind(6)] fn shape_q() { shape::<4, 3, 2, true>(); }
     #[kani::proof] #[kani::unwind(7)] fn shape_t() { shape::<5, 4, 3, true>(); }
